@@ -1,6 +1,7 @@
 package main
 
 import (
+	"sync"
 	"bufio"
 	"encoding/json"
 	"fmt"
@@ -107,65 +108,99 @@ func runC16(c *Ctx) error {
 	if err != nil {
 		return err
 	}
-	for ci := 0; ci <= ncirc; ci++ { // ci == ncirc: the streaming session
-		start := 0
-		for restarts := 0; restarts < 400; restarts++ {
-			// address-space limit: a corrupted count that asks for gigabytes kills the
-			// child at once instead of thrashing the machine
-			cmd := exec.Command("sh", "-c", `ulimit -v 3000000; exec "$0" "$@"`, exe, "c16", "-seed", fmt.Sprint(c.Seed), "-tier", c.Tier, "-out", filepath.Join(c.OutDir, "child"))
-			cmd.Stderr = nil
-			cmd.Env = append(os.Environ(), "C16_CHILD=1", fmt.Sprintf("C16_CIRC=%d", ci), fmt.Sprintf("C16_START=%d", start))
-			out, err := cmd.StdoutPipe()
-			if err != nil {
-				return err
-			}
-			if err := cmd.Start(); err != nil {
-				return err
-			}
-			sc := bufio.NewScanner(out)
-			sc.Buffer(make([]byte, 1<<20), 1<<26)
-			last := start - 1
-			current := -1
-			finished := false
-			var pendingDesc string
-			for sc.Scan() {
-				line := sc.Text()
-				switch {
-				case strings.HasPrefix(line, "BEGIN "):
-					f := strings.SplitN(line, " ", 3)
-					current, _ = strconv.Atoi(f[1])
-					pendingDesc = f[2]
-				case strings.HasPrefix(line, "END "):
-					var rec c16Rec
-					if err := json.Unmarshal([]byte(line[4:]), &rec); err != nil {
-						return fmt.Errorf("child line: %v", err)
+	// one child per circuit (ci == ncirc: the streaming sessions), run CONCURRENTLY; their
+	// records are collected and accounted in circuit order afterwards so that the output does
+	// not depend on the interleaving
+	type c16Event struct {
+		rec      *c16Rec
+		crash    string
+		basefail string
+	}
+	events := make([][]c16Event, ncirc+2)
+	errs := make([]error, ncirc+2)
+	var wg sync.WaitGroup
+	for ci := 0; ci <= ncirc+1; ci++ {
+		wg.Add(1)
+		go func(ci int) {
+			defer wg.Done()
+			start := 0
+			for restarts := 0; restarts < 400; restarts++ {
+				// address-space limit: a corrupted count that asks for gigabytes kills the
+				// child at once instead of thrashing the machine
+				cmd := exec.Command("sh", "-c", `ulimit -v 3000000; exec "$0" "$@"`, exe, "c16", "-seed", fmt.Sprint(c.Seed), "-tier", c.Tier, "-out", filepath.Join(c.OutDir, fmt.Sprintf("child%d", ci)))
+				cmd.Stderr = nil
+				cmd.Env = append(os.Environ(), "C16_CHILD=1", fmt.Sprintf("C16_CIRC=%d", ci), fmt.Sprintf("C16_START=%d", start))
+				out, err := cmd.StdoutPipe()
+				if err != nil {
+					errs[ci] = err
+					return
+				}
+				if err := cmd.Start(); err != nil {
+					errs[ci] = err
+					return
+				}
+				sc := bufio.NewScanner(out)
+				sc.Buffer(make([]byte, 1<<20), 1<<26)
+				last := start - 1
+				current := -1
+				finished := false
+				var pendingDesc string
+				for sc.Scan() {
+					line := sc.Text()
+					switch {
+					case strings.HasPrefix(line, "BEGIN "):
+						f := strings.SplitN(line, " ", 3)
+						current, _ = strconv.Atoi(f[1])
+						pendingDesc = f[2]
+					case strings.HasPrefix(line, "END "):
+						rec := new(c16Rec)
+						if err := json.Unmarshal([]byte(line[4:]), rec); err != nil {
+							errs[ci] = fmt.Errorf("child line: %v", err)
+							continue
+						}
+						last = rec.Fi
+						current = -1
+						events[ci] = append(events[ci], c16Event{rec: rec})
+					case line == "DONE":
+						finished = true
+					case strings.HasPrefix(line, "BASEFAIL "):
+						events[ci] = append(events[ci], c16Event{basefail: line[9:]})
+						finished = true
 					}
-					last = rec.Fi
-					current = -1
-					c16Account(c, ci, &rec)
-				case line == "DONE":
-					finished = true
-				case strings.HasPrefix(line, "BASEFAIL "):
-					c.Fail("c16:honest-baseline", "uncorrupted session does not produce f(x,y)", line[9:])
-					finished = true
+				}
+				cmd.Wait()
+				if finished {
+					break
+				}
+				// child died while processing fault `current`
+				if current >= 0 {
+					events[ci] = append(events[ci], c16Event{crash: pendingDesc})
+					start = current + 1
+				} else {
+					start = last + 1
 				}
 			}
-			cmd.Wait()
-			if finished {
-				break
-			}
-			// child died while processing fault `current`
-			if current >= 0 {
+			os.RemoveAll(filepath.Join(c.OutDir, fmt.Sprintf("child%d", ci)))
+		}(ci)
+	}
+	wg.Wait()
+	for ci := 0; ci <= ncirc+1; ci++ {
+		if errs[ci] != nil {
+			return errs[ci]
+		}
+		for _, ev := range events[ci] {
+			switch {
+			case ev.rec != nil:
+				c16Account(c, ci, ev.rec)
+			case ev.basefail != "":
+				c.Fail("c16:honest-baseline", "uncorrupted session does not produce f(x,y)", ev.basefail)
+			default:
 				c.Hist("garbler:crashed-process")
-				c.Eval(fmt.Sprintf("%d|crash|%s", ci, pendingDesc), true)
-				c.Note("process died (out of memory / fatal) at circuit %d fault %s", ci, pendingDesc)
-				start = current + 1
-			} else {
-				start = last + 1
+				c.Eval(fmt.Sprintf("%d|crash|%s", ci, ev.crash), true)
+				c.Note("process died (out of memory / fatal) at circuit %d fault %s", ci, ev.crash)
 			}
 		}
 	}
-	os.RemoveAll(filepath.Join(c.OutDir, "child"))
 	return nil
 }
 
@@ -211,8 +246,9 @@ func c16Child(c *Ctx) error {
 	startAt, _ := strconv.Atoi(os.Getenv("C16_START"))
 	w := bufio.NewWriter(os.Stdout)
 	defer w.Flush()
-	if want_ci == ncirc {
-		return c16StreamChild(c, w, startAt)
+	if want_ci >= ncirc {
+		// ncirc: byte faults on a streaming session; ncirc+1: handshake sweeps
+		return c16StreamChild(c, w, startAt, want_ci-ncirc)
 	}
 	for ci := 0; ci < ncirc; ci++ {
 		r := c.rng.Fork()
@@ -513,7 +549,7 @@ func c16RunStreamProg(seed uint64, src string, gIn, eIn []string, f *fault) (gRe
 	return gout.vals, gout.err, stalled, lg, le
 }
 
-func c16StreamChild(c *Ctx, w *bufio.Writer, startAt int) error {
+func c16StreamChild(c *Ctx, w *bufio.Writer, startAt int, part int) error {
 	r := c.rng.Fork()
 	av, bv := r.Intn(256), r.Intn(256)
 	seed := r.U64()
@@ -564,7 +600,7 @@ func c16StreamChild(c *Ctx, w *bufio.Writer, startAt int) error {
 		}
 	}
 	for fi, f := range faults {
-		if fi < startAt {
+		if fi < startAt || part != 0 {
 			continue
 		}
 		f := f
@@ -623,6 +659,9 @@ func c16StreamChild(c *Ctx, w *bufio.Writer, startAt int) error {
 	}
 	fi := len(faults)
 	for _, sw := range sweeps {
+		if part != 1 {
+			break
+		}
 		swant, serr, sst, slg, _ := c16RunStreamProg(seed, sw.src, sw.gIn, sw.eIn, nil)
 		if serr != nil || sst || len(swant) == 0 {
 			fmt.Fprintf(w, "BASEFAIL %s baseline: %v %v %s\n", sw.dir, serr, sst, bigsString(swant))
